@@ -997,6 +997,34 @@ DIRECTED = [
     ("select(-abs(a) == abs(b), a, b)", lambda: ["select", ["eq", ["negative", ["absolute", sym_spec("a", "f32")]], ["absolute", sym_spec("b", "f32")]], sym_spec("a", "f32"), sym_spec("b", "f32")]),
 ]
 
+def sign_algebra_specs(ty="f32"):
+    """Systematic depth-2 coverage of the sign inference: every binary arithmetic kind over every ordered pair of
+    sign classes (positive, non-negative, zero, non-positive, negative, unknown — several witnesses each), and its
+    negation.  Returns (expressions, comparisons of them against 0)."""
+    def atoms(name):
+        x = sym_spec(name, ty)
+        c = lambda v: ["const", ["i", v], x]
+        return [
+            ["add", ["absolute", x], c(1)], ["divide", c(3), c(2)], c(2),                       # positive
+            ["absolute", x], ["square", x],                                                     # non-negative
+            c(0),                                                                                # zero
+            ["negative", ["absolute", x]], ["negative", ["square", x]],                          # non-positive
+            ["negative", ["add", ["square", x], c(1)]], c(-2), ["divide", c(-3), c(2)],          # negative
+            x,                                                                                   # unknown
+        ]
+    zero = ["const", ["i", 0], sym_spec("a", ty)]
+    exprs, cmps = [], []
+    for a in atoms("a"):
+        for b in atoms("b"):
+            for op in ("multiply", "divide", "add", "subtract"):
+                e = [op, a, b]
+                for ee in (e, ["negative", e]):
+                    exprs.append(ee)
+                    for rel in REL:
+                        cmps.append([rel, ee, zero])
+    return exprs, cmps
+
+
 INFER_DIRECTED = [
     ("_is_one(square(-1))", lambda: ["square", ["const", ["i", -1], sym_spec("x", "f32")]]),
     ("_is_one(abs(-1.0))", lambda: ["absolute", ["const", vfloat(-1.0, "py"), sym_spec("x", "f64")]]),
@@ -1097,6 +1125,10 @@ def run(ctx):
     # inference answers: model vs implementation
     gq = Gen(ctx.rng)
     qspecs = [gq.expression()[0] for _ in range(ctx.scale(3000, 30000))]
+    sa_exprs, sa_cmps = sign_algebra_specs("f32")
+    sa_exprs64, sa_cmps64 = sign_algebra_specs("f64")
+    qspecs += sa_exprs + (sa_exprs64 if not ctx.quick else [])
+    ctx.count("infer-corr:sign-algebra", len(qspecs) - ctx.scale(3000, 30000))
     qres = [r for r in run_jobs("infer", qspecs) if "dag" in r]
     qout = run_driver(ctx, tline, ["Q " + r["dag"] for r in qres])
     qmis = 0
@@ -1154,7 +1186,11 @@ def run(ctx):
     while len(sspecs) < n_search:
         s, k = gs.expression()
         sspecs.append(s)
-    sasg = [gen_assignments(ctx.rng, s, 6) for s in sspecs]
+    # systematic sign algebra: comparisons of every (kind, sign class, sign class) combination against 0
+    sa_pick = (sa_cmps + sa_cmps64) if not ctx.quick else ctx.rng.sample(sa_cmps, 1500)
+    sspecs += sa_pick
+    ctx.count("search:sign-algebra-comparisons", len(sa_pick))
+    sasg = [gen_assignments(ctx.rng, s, 6) + boundary_assignments(s) for s in sspecs]
     sres = run_jobs("search", sspecs, extra=sasg)
     agg = {}
     nviol = 0
@@ -1168,7 +1204,8 @@ def run(ctx):
         ctx.count("search:" + k, v)
     # inference answers of the real code against exact evaluation
     fspecs = [gs.expression()[0] for _ in range(ctx.scale(1500, 20000))]
-    fres = run_jobs("infersearch", fspecs, extra=[gen_assignments(ctx.rng, s, 4) for s in fspecs])
+    fspecs += sa_exprs + (sa_exprs64 if not ctx.quick else [])
+    fres = run_jobs("infersearch", fspecs, extra=[gen_assignments(ctx.rng, s, 4) + boundary_assignments(s) for s in fspecs])
     for s, r in zip(fspecs, fres):
         ctx.count("infer-search:checked", r.get("checked", 0))
         for f in r.get("fails", [])[:1]:
